@@ -207,4 +207,22 @@ theorem src_powi_float_config_free {α : Type} (one : α) (recip : α → α) (p
 
 end PowiConfigFree
 
+/-! ### closed world: the configuration axes of the source, regenerated on this run
+
+This property — and the correspondence check, which runs debug builds of four feature sets — ranges over feature
+flags.  Code gated on anything else (`debug_assertions`, `target_pointer_width`, `target_arch`, `overflow_checks`, …)
+would behave differently along an axis nobody looks at, and a second, differently gated copy of a function would be
+invisible to the per-function theorems.  `Gen.Sig.cfgPredicates` lists every `#[cfg(…)]` / `cfg!(…)` / code-affecting
+`cfg_attr` predicate of the macro files; the theorems: they are all built from `feature = "…"` and `test` only, and
+no function occurs twice. -/
+section CfgInventory
+open Uom.Gen.Sig
+
+theorem src_cfg_axes_are_features_only : cfgForeignAtoms = [] := by decide
+theorem src_no_duplicate_functions : duplicateKeys = [] := by decide
+/-- non-vacuity: the inventory is not empty and contains the autoconvert gate -/
+example : cfg_feature_autoconvert ∈ cfgPredicates := by decide
+
+end CfgInventory
+
 end Uom.C17
